@@ -395,9 +395,14 @@ fn protocol(rep: &mut Report) {
     // the three fields and names that are not fields: an arbitrary one, plausible aliases, another letter case, a padded name
     let keys4 = ["scale", "rot", "disp", "bogus", "rotation", "Scale", "translation", " disp", "ROT", "Disp", "scal", "scale ", "rot_", "displacement", "s"];
     let nk = keys4.len();
+    // a name that is not a field carries the value of the field it resembles (an alias would have to accept exactly that)
+    let like = |k: &str| -> &'static str {
+        let l = k.trim().to_ascii_lowercase();
+        if l.starts_with('s') { "scale" } else if l.starts_with('r') { "rot" } else if l.starts_with('d') || l.starts_with('t') { "disp" } else { "other" }
+    };
     let value_toks = |k: &str| -> Vec<Tok> {
         let mut out = Vec::new();
-        match k {
+        match like(k) {
             "scale" => tokens_of::<f64>(&Shape::Scalar, &[2.5], &mut 0, &mut out),
             "rot" => tokens_of::<f64>(&quat(), &[0.1, 0.2, 0.3, 0.9], &mut 0, &mut out),
             "disp" => tokens_of::<f64>(&vecn(3), &[7.0, -8.0, 9.5], &mut 0, &mut out),
@@ -479,11 +484,11 @@ fn protocol(rep: &mut Report) {
             if !dup {
                 let body: Vec<String> = st
                     .iter()
-                    .map(|&k| match keys4[k] {
-                        "scale" => "\"scale\":2.5".to_string(),
-                        "rot" => "\"rot\":{\"v\":{\"x\":0.1,\"y\":0.2,\"z\":0.3},\"s\":0.9}".to_string(),
-                        "disp" => "\"disp\":{\"x\":7.0,\"y\":-8.0,\"z\":9.5}".to_string(),
-                        other => format!("\"{other}\":1.0"),
+                    .map(|&k| match like(keys4[k]) {
+                        "scale" => format!("\"{}\":2.5", keys4[k]),
+                        "rot" => format!("\"{}\":{{\"v\":{{\"x\":0.1,\"y\":0.2,\"z\":0.3}},\"s\":0.9}}", keys4[k]),
+                        "disp" => format!("\"{}\":{{\"x\":7.0,\"y\":-8.0,\"z\":9.5}}", keys4[k]),
+                        _ => format!("\"{}\":1.0", keys4[k]),
                     })
                     .collect();
                 let js = format!("{{{}}}", body.join(","));
